@@ -41,6 +41,22 @@ def unhex(h):
 
 # ---------------------------------------------------------------- builds
 
+import contextlib, fcntl
+
+
+@contextlib.contextmanager
+def build_lock():
+    """checks of different properties may be started at the same time: everything that writes shared build output
+    (the Coq Makefile build, extraction, the driver, cargo's target directory, the Python module) is serialised"""
+    os.makedirs(BUILD, exist_ok=True)
+    with open(os.path.join(BUILD, ".buildlock"), "w") as fh:
+        fcntl.flock(fh, fcntl.LOCK_EX)
+        try:
+            yield
+        finally:
+            fcntl.flock(fh, fcntl.LOCK_UN)
+
+
 def coq_makefile():
     mk = os.path.join(COQ, "Makefile")
     proj = os.path.join(COQ, "_CoqProject")
